@@ -23,6 +23,7 @@ func bufferFuncs(c *Ctx) []*ssa.Function {
 
 func runC03(c *Ctx) {
 	R := c.R
+	defer c.include("C03.S1", "C10", []string{"C10.R6"}, "every client message is consumed in exactly its declared length: the body of a rejected (oversized) message is skipped once - by the frame reader or by the code that receives its error, never by neither or both", 3)
 	R.Technique = "who-may-use ownership of the byte source, must-pass-through and field-memory rules on the frame reader, difference-constraint proofs for the accessors (E-BND/E-LIN), error-discipline dominance rules"
 	R.Explanation = "Transcript equality under re-segmentation is not observed; it is argued from structural facts that are decided for every byte stream: (R1) the client byte source is consumed only by io.ReadFull and ReadByte inside pkg/buffer (both return exactly the bytes asked for or an error, independent of how the transport segments them), nothing else in the library reads the connection, and readers are constructed only at the designated handshake points; " +
 		"(R2) a message body is read into a window of exactly the declared size: the size is the big-endian 32-bit header minus 4 through value-preserving conversions, the accept path resets the window to that size (len(Msg) == size proved on both branches) and fills it with one ReadFull; (R3) every successful message read passes through that reset, and only pkg/buffer stores the window - so unread or surplus bytes of one message can never be seen by the next; " +
